@@ -252,7 +252,7 @@ def run(c: Campaign, jobs: int) -> None:
         for i in range(0, len(kids), 6):
             args.append((shard_exhaustive, (c.prop, c.tier, c.seed, n_, P, kids[i:i + 6], True)))
     for n_ in names:
-        args.append((shard_random, (c.prop, c.tier, c.seed * 1000 + len(args), n_, 25 if quick else 600)))
+        args.append((shard_random, (c.prop, c.tier, c.seed * 1000 + len(args), n_, 25 if quick else 300)))
     run_shards(c, _dispatch, args, jobs)
     for n_ in names:
         tot = sum(v for k, v in c.extra.items() if k == f"schedules:{n_}")
